@@ -52,7 +52,7 @@ template<class T> struct shape {
 TYPES = ["int", "long", "double", "char", "bool", "unsigned int", "long long", "unsigned", "short int", "float", "size_t", "std::string",
          "std::vector<int>", "std::vector<double>", "MyInt", "Color", "Pt", "Top", "ns::Cls", "ns::deep::Leaf", "int64_t", "Dev",
          "unsigned long long int", "long int", "unsigned short int", "unsigned long", "short", "uint8_t", "ns::NsLong", "Top::Inner"]
-NATIVE = {"void", "int", "long", "double", "char", "unsigned int", "long long", "unsigned", "short int", "float", "unsigned long long int", "long int",
+NATIVE = {"signed char", "char signed", "signed int", "int signed", "signed long", "long signed", "signed", "unsigned char", "char unsigned", "void", "int", "long", "double", "char", "unsigned int", "long long", "unsigned", "short int", "float", "unsigned long long int", "long int",
           "unsigned short int", "unsigned long", "short"}
 PTRS = ["", "", "", "*", "*", "&", "**", "*&", "* const", "* const *", "* volatile", "***", "* const * volatile", "const *", "* const &", "&&"]
 
@@ -69,7 +69,10 @@ def gen_var(rng, name, depth=0):
         # the words of a multi-word built-in type in any order, possibly with a word repeated: C++ accepts every order of
         # e.g. {unsigned, long, long, int}; what Shroud accepts must denote that type, what it cannot resolve it rejects
         ws = rng.choice([["unsigned", "long", "long"], ["long", "long", "int"], ["unsigned", "long", "long", "int"], ["unsigned", "long", "int"],
-                         ["unsigned", "short", "int"], ["long", "int"], ["signed", "long", "long"], ["long", "double"], ["unsigned", "char"]])
+                         ["unsigned", "short", "int"], ["long", "int"], ["signed", "long", "long"], ["long", "double"], ["unsigned", "char"],
+                         # explicit 'signed': rejected today (no such typemap); if accepted it must denote the C++ type
+                         # ('signed char' is a type of its own, not 'char')
+                         ["signed", "char"], ["signed", "char"], ["signed", "int"], ["signed"], ["signed", "short", "int"], ["signed", "long"]])
         ws = list(ws)
         rng.shuffle(ws)
         t = " ".join(ws)
